@@ -4,17 +4,102 @@
 //! One process runs one shard of one property's workload, with the monitors online, and
 //! writes a JSON summary (counters, distinct shapes, samples, violations) to `--out`.
 
+mod compose;
 mod ctx;
+mod decode;
 mod props;
 mod util;
+mod witgen;
+
+struct StderrLog;
+impl log::Log for StderrLog {
+    fn enabled(&self, _: &log::Metadata) -> bool {
+        true
+    }
+    fn log(&self, r: &log::Record) {
+        eprintln!("[{}] {}", r.target(), r.args());
+    }
+    fn flush(&self) {}
+}
 
 fn main() {
+    if std::env::var_os("WACVERIF_LOG").is_some() {
+        let _ = log::set_logger(&StderrLog);
+        log::set_max_level(log::LevelFilter::Debug);
+    }
     let args: Vec<String> = std::env::args().skip(1).collect();
     util::install_panic_hook();
     let mut ctx = ctx::Ctx::from_args(&args);
     let prop = ctx.prop.clone();
     match prop.as_str() {
+        "C01" => props::c01::run(&mut ctx),
+        "C02" => props::c02::run(&mut ctx),
+        "C03" => props::c03::run(&mut ctx),
         "C15" => props::c15::run(&mut ctx),
+        "debug-c01" => {
+            // dumps the output WAT of one C01 case: worker debug-c01 --case K [--seed S]
+            let case = ctx.only_case.expect("--case");
+            let mut rng = ctx.rng_for("C01", case);
+            let lo = props::c01::lib_opts_for(&mut rng);
+            let lib = witgen::gen_library(&mut rng, &lo).unwrap();
+            let co = props::c01::compose_opts_for(&mut rng);
+            let built = compose::build(&mut rng, &lib, &co).unwrap();
+            for o in &built.ops {
+                println!("{} {}", if o.ok { "  " } else { "!!" }, o.text);
+            }
+            for c in &lib.comps {
+                println!("{}: decoded imports {:?}", c.name, c.decoded.import_names());
+                for i in c.decoded.import_names() {
+                    println!("   entangled({i}) = {}", compose::resource_entangled(&lib, c, &i));
+                }
+            }
+            for c in &lib.comps {
+                if std::env::var("DUMP_COMPS").is_ok() {
+                    println!("==== {}\n{}", c.name, wasmprinter::print_bytes(&c.bytes).unwrap());
+                }
+            }
+            for define in [true, false] {
+                let r = util::catch(|| built.graph.encode(wac_graph::EncodeOptions { define_components: define, validate: false, processor: None }));
+                let r = match r {
+                    Ok(r) => r,
+                    Err(p) => {
+                        println!("---- define_components={define}: PANIC {p}");
+                        continue;
+                    }
+                };
+                match r {
+                    Ok(b) => {
+                        println!("---- define_components={define}: {:?}", decode::validate(&b));
+                        if !define || std::env::var("DUMP_EMBEDDED").is_ok() {
+                            println!("{}", wasmprinter::print_bytes(&b).unwrap_or_else(|e| format!("print failed: {e}")));
+                        }
+                    }
+                    Err(e) => println!("---- define_components={define}: error {e}"),
+                }
+            }
+        }
+        "debug-witgen" => {
+            let mut ok = 0;
+            let mut bad = 0;
+            for case in 0..ctx.n(50, 500) {
+                let mut rng = ctx.rng(case);
+                match witgen::gen_library(&mut rng, &witgen::LibOpts::default()) {
+                    Ok(lib) => {
+                        ok += 1;
+                        if case == 0 {
+                            println!("{}", witgen::library_text(&lib));
+                        }
+                    }
+                    Err(e) => {
+                        bad += 1;
+                        if bad < 4 {
+                            println!("case {case}: {e:#}");
+                        }
+                    }
+                }
+            }
+            println!("ok={ok} bad={bad}");
+        }
         other => {
             eprintln!("unknown property {other}");
             std::process::exit(2);
